@@ -2,7 +2,7 @@
 import random
 from . import defs as D, strcorpus as SC, strgen as SG, itergen as IG
 from .defs import variant, enum, field
-from .core import uncp
+from .core import uncp, cp
 
 REPRS = ["none", "u8", "i8", "u16", "i16", "u32", "i32", "u64", "i64", "usize", "isize"]
 RANGE = {"u8": (0, 255), "i8": (-128, 127), "u16": (0, 65535), "i16": (-32768, 32767), "u32": (0, 2**32 - 1), "i32": (-2**31, 2**31 - 1),
@@ -214,6 +214,8 @@ def disc_def(rng, did):
     E["dder"] = rng.random() < 0.7
     E["dstyle"] = rng.choice(["none", "snake_case", "SCREAMING_SNAKE_CASE", "kebab-case", "camelCase"]) if E["dder"] else "none"
     E["dsplit"] = rng.randrange(2)
+    for k, v in enumerate(E["variants"]):
+        v["dser"] = [cp("d%d-%s" % (k, "Xy"))] if (E["dder"] and rng.random() < 0.3) else []
     return E
 
 
@@ -241,6 +243,9 @@ def disc_module(E):
     lines = ["#[derive(Debug, Clone, PartialEq, strum::EnumDiscriminants)]"] + ["#[repr(%s)]" % r for r in E["reprs"]] + attrs
     lines.append("pub enum %s%s%s {" % (n, decl, where))
     for v in E["variants"]:
+        if v.get("dser"):
+            v = dict(v)
+            v["xattrs"] = list(v.get("xattrs", [])) + ['#[strum_discriminants(strum(serialize = %s))]' % D.rs_str(v["dser"][0])]
         lines += D.print_variant(v, 0, with_strum=False, indent="    ")
     lines.append("}")
     # reference enum for the layout clause: same repr lines, same discriminants, no fields
